@@ -101,7 +101,7 @@ def generate(repo):
     fn = load_function(repo, M, 'spline')
     u = ast.unparse(ast.Module(body=strip_docstring(fn.body), type_ignores=[]))
     for needle in ("if len(potential_forms) != 1:\n    raise ConfigurationException(", "if pform.next is None:\n    raise ConfigurationException(",
-                   "if not form_label(pot2) in allowed_spline_types:", "if pform.next.next is None:\n    raise ConfigurationException(",
+                   "if not (hasattr(pot2, 'potential_form') and form_label(pot2) in allowed_spline_types):", "if pform.next.next is None:\n    raise ConfigurationException(",
                    "if not pform.next.next.next is None:\n    raise ConfigurationException(", "if not pot1.start.start < pot2.start.start:\n    raise ConfigurationException(",
                    "if not pot2.start.start < pot3_old_start:\n    raise ConfigurationException("):
         if needle not in u: raise Refuse('_modifiers.spline: check `%s` not found' % needle[:60])
